@@ -286,3 +286,59 @@ def _(c):
         got = list(Tle.from_string(text, error="ignore"))
         c.ensure("multi_exactly_valid", [t.norad_id for t in got] == [25544, 5, 28163] and [t.name for t in got] == ["ISS (ZARYA)", "", "MOLNIYA 1-93"])
         c.ensure("multi_raise", c.raises(TleParseError, lambda: list(Tle.from_string(text, error="raise"))))
+
+
+ENTRY_KINDS = ["valid", "valid_named", "valid_named_0", "bad_checksum", "bad_checksum_named", "bad_length", "comment", "blank"]
+
+
+def _grid_multi(tier, rng):
+    """every text made of 1..3 (quick) / 1..4 (thorough) items drawn from {valid 2-line entry, valid entry with a name line, with a '0 ' name line, entry with a corrupted
+    checksum (with / without name line), entry with a short line, comment line, blank line}: exhaustive"""
+    n = len(ENTRY_KINDS)
+    for L in (1, 2, 3) if tier == "quick" else (1, 2, 3, 4):
+        for seq in itertools.product(range(n), repeat=L):
+            yield {"len": L, **{f"k{i}": seq[i] for i in range(L)}}
+
+
+@contract("C12", "multi", funcs=[f"{TLE}:Tle.from_string"], grid=_grid_multi, level="bounded")
+def _(c):
+    """bounded (exhaustive up to the stated length): from_string yields exactly the valid entries of a multi-TLE text, in order, each with its own name (none when it has no
+    name line), wherever the rejected entries, comments, blank and stray lines stand; with error='raise' it raises at the first rejected entry after yielding those before"""
+    from beyond.io.tle import Tle, TleParseError
+    L = c.integer("len")
+    lines, want = [], []
+    first_bad = None
+    for j in range(L):
+        kind = ENTRY_KINDS[c.integer(f"k{j}")]
+        name, l1, l2 = BASES[j % 3]
+        name = name or f"SAT {j}"
+        if kind == "comment":
+            lines.append("# a comment")
+        elif kind == "blank":
+            lines.append("")
+        else:
+            if kind.endswith("named"):
+                lines.append(name)
+            elif kind.endswith("named_0"):
+                lines.append("0 " + name)
+            a = l1
+            if kind.startswith("bad_checksum"):
+                a = l1[:30] + ("9" if l1[30] != "9" else "8") + l1[31:]
+            elif kind == "bad_length":
+                a = l1[:40] + l1[41:]
+            lines += [a, l2]
+            if kind.startswith("valid"):
+                want.append((int(l1[2:7]), name if "named" in kind else ""))
+            elif first_bad is None:
+                first_bad = len(want)
+    text = "\n".join(lines) + "\n"
+    got = [(t.norad_id, t.name) for t in Tle.from_string(text, error="ignore")]
+    c.ensure("exactly_the_valid_entries", got == want)
+    gen = Tle.from_string(text, error="raise")
+    seen, raised = [], False
+    try:
+        for t in gen:
+            seen.append((t.norad_id, t.name))
+    except TleParseError:
+        raised = True
+    c.ensure("raise_mode_stops_at_the_first_rejected", raised == (first_bad is not None) and seen == (want if first_bad is None else want[:first_bad]))
